@@ -331,9 +331,9 @@ MANIFEST = {
 OPTS = {'quick': {'time_budget': 60}, 'thorough': {'time_budget': 900}}
 
 META = {
-    'explanation': "C17: the same symbolic matrix (every sparsity pattern) encoded in 13 accepted input forms (dense array, nested lists, "
+    'explanation': "C17: the same symbolic matrix (every sparsity pattern) encoded in 18 accepted input forms and, for 8 of them, also with int / bool element types (dense array, nested lists, "
                    "triples with/without explicit zeros, dict, list of arrays / dicts / sparse rows, CSR (also unsorted with a stored zero), CSC, COO, COO "
-                   "with duplicate entries) must construct tables holding exactly the described values and comparing equal to the dense construction, and keep holding them after the caller overwrites every numeric buffer it passed in; "
+                   "with duplicate entries, dok in every insertion order, lil, bsr with 1x1 and full blocks) must construct tables holding exactly the described values and comparing equal to the dense construction, and keep holding them after the caller overwrites every numeric buffer it passed in; "
                    "from_adjacency on record lists with symbolic values (text holes) must yield the per-pair sums; every malformed combination from the menu "
                    "(duplicate ids anywhere, too few/many ids, metadata too short/long/empty/non-mapping/all-falsy) must raise TableException. (CrossHair) parse_uc / from-uc on "
                    "record lists chosen by symbolic selectors (record type, query id, target id, interleaved comment/blank lines) against the counting specification.",
